@@ -379,7 +379,8 @@ def parse_youtube_url(url, fix_common_mistakes=True):
 
         name = splitted_path[1].lstrip("@")
 
-        if not name:
+        # NOTE: same as the short form below, a dot segment is not a name
+        if not name or name in (".", ".."):
             return None
 
         return YoutubeChannel(id=None, name=name)
